@@ -184,7 +184,85 @@ theorem gbk_pipeline_seq (xs : List Val) :
     execSeq [vecSource xs, gbkNode] = pure (encGroups (mergeGroups [groupRows xs])) := by
   simp [execSeq, vecSource, gbkNode, stepSeq, stepSubSeq, need, gbkMerge, gbkLocal]
 
+/-! ## "for every partitioning": the output is a function of the input alone
+
+`gbk_values` already fixes each group from `ps.flatten`; the next three theorems say so outright, for two arbitrary
+partition lists: the same rows cut differently give the IDENTICAL output (keys, key order, in-group order), and rows that
+are merely a permutation of each other (partitions arriving in another order, rows shuffled across partitions) give the
+same keys and, per key, the same multiset of values — which is all C04 states. -/
+
+/-- two partitionings of the same row sequence (any cuts, empty partitions anywhere) give the same output, literally -/
+theorem gbk_partitioning_irrelevant (ps qs : List (List Val)) (h : ps.flatten = qs.flatten) :
+    mergeGroups (ps.map groupRows) = mergeGroups (qs.map groupRows) := by
+  rw [← gbk_seq_eq_par ps, ← gbk_seq_eq_par qs, h]
+
+/-- … and when the rows are only a permutation of each other, the key sets agree … -/
+theorem gbk_perm_keys (ps qs : List (List Val)) (h : ps.flatten.Perm qs.flatten) (k : Val) :
+    k ∈ (mergeGroups (ps.map groupRows)).map (·.1) ↔ k ∈ (mergeGroups (qs.map groupRows)).map (·.1) := by
+  rw [gbk_keys_exact, gbk_keys_exact]
+  exact (h.map Val.key).mem_iff
+
+/-- … and every key's group holds the same multiset of values -/
+theorem gbk_perm_values (ps qs : List (List Val)) (h : ps.flatten.Perm qs.flatten) (k : Val) (vs : List Val)
+    (hv : lookupKV (mergeGroups (ps.map groupRows)) k = some vs) :
+    ∃ ws, lookupKV (mergeGroups (qs.map groupRows)) k = some ws ∧ vs.Perm ws := by
+  rw [gbk_values] at hv
+  by_cases hk : k ∈ ps.flatten.map Val.key
+  · simp only [hk, ↓reduceIte, Option.some.injEq] at hv
+    have hk' : k ∈ qs.flatten.map Val.key := ((h.map Val.key).mem_iff).mp hk
+    refine ⟨(qs.flatten.filter (fun r => r.key == k)).map Val.value, ?_, ?_⟩
+    · rw [gbk_values]; simp only [hk', ↓reduceIte]
+    · rw [← hv]; exact (h.filter _).map _
+  · rw [if_neg hk] at hv
+    cases hv
+
+/-! ## accounting: nothing lost, nothing invented, counted -/
+
+/-- the group sizes add up to the number of input rows -/
+theorem gbk_sizes_sum (ps : List (List Val)) :
+    ((mergeGroups (ps.map groupRows)).map (fun kv => kv.2.length)).sum = ps.flatten.length := by
+  have h := (gbk_flatten_perm ps).length_eq
+  rw [List.length_map, List.length_flatMap] at h
+  simpa using h
+
+/-- there are never more groups than rows -/
+theorem gbk_group_count_le (ps : List (List Val)) :
+    (mergeGroups (ps.map groupRows)).length ≤ ps.flatten.length := by
+  rw [← gbk_sizes_sum ps]
+  generalize hout : mergeGroups (ps.map groupRows) = out
+  have hne : ∀ kv ∈ out, kv.2 ≠ [] := fun kv hkv => gbk_groups_nonempty ps kv (hout ▸ hkv)
+  clear hout
+  induction out with
+  | nil => simp
+  | cons kv rest ih =>
+    have h1 : 0 < kv.2.length := List.length_pos_iff.mpr (hne kv (by simp))
+    have h2 := ih (fun x hx => hne x (by simp [hx]))
+    simp only [List.length_cons, List.map_cons, List.sum_cons]
+    omega
+
+/-- no group is longer than the input -/
+theorem gbk_group_size_le (ps : List (List Val)) (kv : Val × List Val)
+    (h : kv ∈ mergeGroups (ps.map groupRows)) : kv.2.length ≤ ps.flatten.length := by
+  rw [← gbk_sizes_sum ps]
+  generalize mergeGroups (ps.map groupRows) = out at h
+  induction out with
+  | nil => cases h
+  | cons x rest ih =>
+    simp only [List.map_cons, List.sum_cons]
+    rcases List.mem_cons.mp h with rfl | h'
+    · omega
+    · have := ih h'
+      omega
+
 /-! ## non-vacuity / witnesses (tests, not the theorems) -/
+
+/-- `gbk_perm_values` is not vacuous and not an equality: the same rows with the partitions swapped give the same keys
+    and per-key multisets but another in-group order -/
+example :
+    mergeGroups ([[Val.pair (.int 1) (.int 10)], [Val.pair (.int 1) (.int 11)]].map groupRows)
+        = [(.int 1, [.int 10, .int 11])] ∧
+    mergeGroups ([[Val.pair (.int 1) (.int 11)], [Val.pair (.int 1) (.int 10)]].map groupRows)
+        = [(.int 1, [.int 11, .int 10])] := by decide
 
 /-- a key straddling three partitions (one of them empty): values are extended, not overwritten -/
 example :
